@@ -57,6 +57,7 @@ cAttrs1 == [cAttrs EXCEPT !.maxattrs = 1, !.avals = @ \cup {<<"'", "\"">>}]
 \* family: text placement (before / between / after children, blank runs, trimming, cast and escape look-alikes, comments)
 cTexts == [names |-> {N(<<"a">>), N(<<"b">>)}, anames |-> {N(<<"x">>)}, avals |-> {<<"1">>},
            texts |-> {<<" ", "v", " ">>, <<"7">>, <<"\n">>, <<" ">>, <<"<", "&">>}, maxattrs |-> 1, comments |-> TRUE]
-cTextsQ == [cTexts EXCEPT !.texts = {<<" ", "v", " ">>, <<"7">>, <<"\n">>, <<"<", "&">>, <<"'">>}, !.comments = FALSE]
-cTextsMore == [cTexts EXCEPT !.texts = @ \cup {<<"v">>, <<"t", "r", "u", "e">>, <<"a", " ", "b">>, <<"'">>, <<"\"", ">">>}]
+\* (the character ` stands for U+00A0, no-break space: white space for Unicode, data for XML -- never trimmed)
+cTextsQ == [cTexts EXCEPT !.texts = {<<" ", "v", " ">>, <<"7">>, <<"\n">>, <<"<", "&">>, <<"'">>, <<"`", "v", "`">>, <<"`">>}, !.comments = FALSE]
+cTextsMore == [cTexts EXCEPT !.texts = @ \cup {<<"`", "v", "`">>, <<"`">>, <<"v">>, <<"t", "r", "u", "e">>, <<"a", " ", "b">>, <<"'">>, <<"\"", ">">>}]
 =============================================================================
